@@ -61,7 +61,8 @@ Step(q) ==
                ELSE R(St(q, "forWriteLabels"), << >>)
             ELSE IF IsOp(k) THEN R(St(q, "forWriteLabels"), << >>)
             ELSE R(St(Nx([q EXCEPT !.lb = Append(@, k.v)]), "forConsumeLabels"), << >>)
-         ELSE IF k.t \in {"nl","cmt","colon"} THEN R(St(Nx(q), "forConsumeLabels"), << >>)
+         ELSE IF k.t = "cmt" THEN R(St(Nx(q), "forConsumeLabels"), <<k, T("nl",0)>>)     \* a comment between labels and instruction stays in the stream (D34)
+         ELSE IF k.t \in {"nl","colon"} THEN R(St(Nx(q), "forConsumeLabels"), << >>)
          ELSE R(St(q, "nil"), << T("err",1) >>)
     [] q.st = "forWriteLabels" ->
          R(St(Nx([q EXCEPT !.lb = << >>]), "forConsumeEmitLine"),
